@@ -79,8 +79,81 @@ class Ctx:
         return ('// ---- extracted: %s :: %s (lines %d-%d, sha256 %s)\n%s%s\n'
                 % (rel, path, e.span[0], e.span[1], e.sha256[:16], attrs, marked))
 
+    # -- X10: statement / block lifting -----------------------------------------------------------------
+    def lifted(self, rel, path, key, props, anchor, name, params, ret_ty='', ret=None, spec='', body_prefix='', rewrites=(),
+               kind='stmt', is_async=False, transforms=(), tail='',
+               prose='lifted block verifies: no panic and every callee precondition holds'):
+        """extract the statement (kind='stmt': from `anchor` to the `;` closing it) or the block (kind='block': the
+        `{...}` following `anchor`) out of fn `path` and wrap it as a function with the declared parameters"""
+        e = extract(self.repo, rel, path, key=key)
+        e.strip_docs()
+        e.inner_attrs()
+        e.drop_log_macros()
+        t = e.text
+        if t.count(anchor) != 1:
+            raise AnchorLost('%s [%s]: lift anchor %r found %d times' % (rel, key, anchor, t.count(anchor)))
+        if kind == 'block':
+            inner = block_after(t, anchor)
+            body = inner
+        elif kind == 'tail':
+            # everything after the statement that starts at `anchor`, up to the end of the fn body
+            i = t.index(anchor)
+            mask = code_mask(t)
+            j = i
+            while j < len(t):
+                if mask[j] and t[j] in '([{':
+                    j = match_delim(t, mask, j) + 1
+                    continue
+                if mask[j] and t[j] == ';':
+                    break
+                j += 1
+            end = len(t) - 1
+            while end > 0 and not (mask[end] and t[end] == '}'):
+                end -= 1
+            if j >= end:
+                raise AnchorLost('%s [%s]: no tail after %r' % (rel, key, anchor))
+            body = '{\n        ' + t[j + 1:end].strip() + '\n' + tail + '    }'
+        else:
+            i = t.index(anchor)
+            mask = code_mask(t)
+            j = i
+            while j < len(t):
+                if mask[j] and t[j] in '([{':
+                    j = match_delim(t, mask, j) + 1
+                    continue
+                if mask[j] and t[j] == ';':
+                    break
+                j += 1
+            if j >= len(t):
+                raise AnchorLost('%s [%s]: lifted statement has no end' % (rel, key))
+            body = '{\n        ' + t[i:j + 1] + '\n' + tail + '    }'
+        e.log('X10', '%s at %r lifted into fn %s(%s)' % (kind, anchor, name, norm(params)))
+        e.text = body
+        for rw in rewrites:
+            e.rewrite(*rw) if isinstance(rw, tuple) else e.rewrite(**rw)
+        for tr in transforms:
+            tr(e)
+        body = e.text
+        sig = 'pub %sfn %s(%s)' % ('async ' if is_async else '', name, params)
+        if ret_ty:
+            sig += ' -> (%s: %s)' % (ret or 'r', ret_ty)
+        e.sig_final = sig
+        e.body_final = '{' + body_prefix + body[1:]
+        e.text = sig + '\n' + spec.rstrip() + '\n' + e.body_final
+        self.extracted.append(e)
+        self.fn_keys.append(key)
+        first, nl, rest = e.text.partition('\n')
+        marked = '%s // @FNOBL %s::body [%s] %s%s%s' % (first, key, ','.join(props), prose, nl, rest)
+        self.probe_fns[key] = dict(sig=e.sig_final, body=e.body_final, requires=_only_requires(spec), attrs='')
+        return ('// ---- extracted: %s :: %s (lines %d-%d, sha256 %s) -- LIFTED %s\n%s\n'
+                % (rel, path, e.span[0], e.span[1], e.sha256[:16], kind, marked))
+
     def note(self, s):
         self.notes.append(s)
+
+
+def norm(s):
+    return re.sub(r'\s+', ' ', s).strip()
 
 
 def _only_requires(spec):
